@@ -67,6 +67,14 @@ class C15(XsProp):
                      '[ 255 ] >bitstr open-bitstr 3 bits close-bitstr dup |x.| bitstr-append swap bitstr-not', '[ 170 85 ] >bitstr open-bitstr 4 bits drop 8 bits close-bitstr 0 3 uint! swap bitstr-append', '[ 1 2 ] foreach I loop 3 0 do I loop', ': r local n n 0 > if n 1 - r then n ; 3 r', ': f local a a ^hex local a a ; 9 f print', '3 0 do I 1 == if break then I loop 7']:
             for (m, rec) in MODES:
                 cs.append(mode_case(hexsrc(prog), m, rec, '3000 - -'))
+        # views built at run time that nobody else holds (the reverse log holds a second reference when recording): what a later
+        # open-bitstr sees (offset, remain, find) must not depend on it
+        for view in ['[ 0 17 34 51 68 ] >bitstr open-bitstr 8 bits drop 16 bits close-bitstr', '"0011223344" hex>bitstr open-bitstr 16 bits drop 8 bits close-bitstr',
+                     '[ 1 2 3 4 ] >bitstr open-bitstr 24 bits drop 8 bits close-bitstr', '[ 9 8 7 ] >bitstr open-bitstr 8 bits drop 9 bits close-bitstr']:
+            for use_ in ['|ff| bitstr-append open-bitstr offset remain', 'bitstr-not open-bitstr offset remain', '|f| bitstr-append open-bitstr |ff| find',
+                         'dup |0| bitstr-append swap bitstr-not open-bitstr offset swap open-bitstr offset', '|1| bitstr-append |1| bitstr-append open-bitstr 4 bits offset']:
+                for (m, rec) in MODES:
+                    cs.append(mode_case(hexsrc(view + ' ' + use_), m, rec, '3000 - -'))
         # enum builders: build-time code in all six drive modes
         for prog in ['enum E : A : B 7 = C : D endenum A B C D', 'enum E endenum 1', 'enum E 1 2 + = X : Y endenum X Y', ': f enum Q : Z endenum Z ; f',
                      'enum E : A endenum enum F A 5 + = B endenum B', '[ enum E : A : B endenum B ]', 'enum E "s" = A endenum', 'enum E : A 1 endenum',
